@@ -3,7 +3,7 @@ import json
 import os
 
 from lib import common as C
-from checks import hsim, sync_gen, sync_eval
+from checks import hsim, sync_gen, sync_eval, mv_sync
 
 LEVEL = "proof"
 
@@ -79,6 +79,9 @@ def run(rep, tier, seed, replay=None):
         rep.cov["leanchecker"] = "ok" if okc else out
         if not okc:
             rep.violation("unverified", dict(broken="leanchecker Photon.Properties.C01", log=out), no_input=True)
+    if replay and json.load(open(replay)).get("harness") == "mv_sync":
+        mv_sync.run(rep, "C01", ['mutex'], tier, seed, json.load(open(replay))["program"])
+        return
     binary = hsim.build(rep)
     if not binary:
         return
@@ -113,3 +116,5 @@ def run(rep, tier, seed, replay=None):
                        "evaluations = trace events")
     rep.sample(progs[-1])
     sync_eval.evaluate(rep, "C01", progs, results, oracle, C.known_findings("C01"))
+    if not replay:
+        mv_sync.run(rep, "C01", ['mutex'], tier, seed)
